@@ -48,6 +48,11 @@ chk("C17", E1, "model_checking",
     "Every (variant, cut-off endpoint, cut position, network mode after the cut, initial interval in {100 ms, 1 s, 7 s}, backoff on/off, follow-up kind, number of timeouts before it, target) combination on the real endpoints for 10 fake minutes; exact fake-clock oracle: retransmissions at I, 2I, 4I ... capped at 60 s, reset only on new data, cookie requests never on a timer, completed endpoints silent except in reply to a peer retransmission, emission count bounded by timer firings x flight size + c x received.",
     "stateless model checking of the implementation: exhaustive silence / stale-input / storm schedule enumeration with an exact fake-time retransmission-law oracle")
 
+chk("C18", E3, "exploration",
+    "Bounded-exhaustive enumeration of every wire codec (legacy/CID/unified record headers, records, every handshake message incl. DTLS 1.3 ones under each key-exchange context, all 29 extension payload types and lists of <=3 extensions per context, all 2^16 alerts, ACK, RRC, inner plaintext) over small per-field domains: value round trip and canonical fixed point; every accepted encoding under every truncation, one-byte extension and single-byte substitution judged against an independent schema-driven framing reference (declared lengths honoured, truncation rejected, no bytes consumed beyond a declared length, no panic); datagram unpackers against a reference splitter on all sequences of <=3 catalogue records with garbage trailers and truncations. 4.9 M evaluations quick / 133 M thorough.",
+    "bounded-exhaustive input enumeration against an independent reference decoder",
+    "Trusted: the schema-driven reference parser in /verif/h/c18/ref.go; value domains per field are small finite sets.")
+
 props = [json.loads(l) for l in open('/verif/properties.jsonl')]
 PENDING = "check not built yet in this session (planned in DESIGN.md §5); not a claim that the technique cannot apply"
 NA = {}
